@@ -144,6 +144,63 @@ def read_tags():
     return tags
 
 
+DUMP_SCRIPT = r"""
+import json, sys
+sys.path.insert(0, sys.argv[1])
+from core.wl import protocol
+from core.output import Output
+from core.output import stream
+o = Output(False, False, stream.Null(), stream.Null())
+protocol.load_all(o)
+res = {}
+for name, i in protocol.interfaces.items():
+    res[name] = {'version': i.version,
+                 'messages': [[m.name, [[a.name, a.type, a.interface, a.enum] for a in m.args.values()]] for m in i.messages.values()],
+                 'enums': [[e.name, bool(e.bitfield), [[x.name, x.value] for x in e.entries.values()]] for e in i.enums.values()]}
+json.dump(res, sys.stdout)
+"""
+
+
+def read_tags_dynamic(files):
+    """Fallback when the try block of load_all() no longer has the shape read_tags() understands (a restructuring):
+    run load_all() itself and read the hand-applied tags off its RESULT: every argument whose enum differs from what the
+    XML declares becomes a TagEnum step, every interface no XML file describes an AddIface step.  The XML part of the
+    database stays independently read; C07_shipped_db_wf and the exhaustive lookup comparison still judge the result."""
+    import json
+    import subprocess
+    p = subprocess.run([sys.executable, '-B', '-c', DUMP_SCRIPT, REPO], capture_output=True, text=True, timeout=300,
+                       env=dict(os.environ, PYTHONPATH=REPO))
+    if p.returncode != 0:
+        raise Unsupported('dynamic reading of load_all() failed: ' + p.stderr[-300:])
+    loaded = json.loads(p.stdout)
+    db = {}
+    for f in files:
+        for i in read_file(f):
+            if i[0] not in db or db[i[0]][1] < i[1]:
+                db[i[0]] = i
+    steps = []
+    for name, li in loaded.items():
+        if name not in db:
+            steps.append(('iface', (name, li['version'], [(m[0], [tuple(a) for a in m[1]]) for m in li['messages']],
+                                    [(e[0], e[1], [tuple(x) for x in e[2]]) for e in li['enums']])))
+    for name, li in loaded.items():
+        if name not in db:
+            continue
+        xml_msgs = {}
+        for m in db[name][2]:
+            xml_msgs.setdefault(m[0], m)
+        for m in li['messages']:
+            if m[0] not in xml_msgs:
+                continue
+            xargs = {a[0]: a for a in xml_msgs[m[0]][1]}
+            for a in m[1]:
+                if a[0] in xargs and a[3] != xargs[a[0]][3]:
+                    if a[3] is None:
+                        raise Unsupported('load_all() removes an enum tag (%s.%s.%s): not expressible' % (name, m[0], a[0]))
+                    steps.append(('tag', name, m[0], a[0], a[3]))
+    return steps
+
+
 def coq_iface(i):
     name, ver, msgs, enums = i
     ms = ';\n      '.join('mkPMsg %s [%s]' % (q(m[0]), '; '.join(
@@ -165,8 +222,14 @@ def main():
         out.append('Definition file_%d : list p_iface := [\n  %s].' % (k, ';\n  '.join(coq_iface(i) for i in ifaces)))
         names.append('file_%d' % k)
     out.append('Definition shipped_files : list (list p_iface) := [%s].' % '; '.join(names))
-    steps = read_tags()
-    out.append('(* the try block of load_all(), statement by statement *)')
+    try:
+        steps = read_tags()
+        how = 'the try block of load_all(), statement by statement (read from the ast)'
+    except Unsupported as e:
+        steps = read_tags_dynamic(files)
+        how = 'load_all() restructured (%s): tags read off the RESULT of running it' % str(e)[:120].replace('*)', '* )')
+        print('translator: ' + how)
+    out.append('(* %s *)' % how)
     ts = []
     for s in steps:
         if s[0] == 'tag':
